@@ -120,6 +120,7 @@ def summarise(g, with_series=False):
         "search_tracker": s.searchTracker,
         "field_type": ghe.fieldType,
         "m_flow_borehole": ghe.bhe.m_flow_borehole,
+        "fluid_rho": float(ghe.bhe.fluid.rho),
         "rb": ghe.bhe.calc_effective_borehole_resistance(),
     }
     if hasattr(s, "coordinates_domain"):
@@ -152,6 +153,10 @@ def run(cfg, outdir=None, with_series=False):
         g.find_design()
         res = summarise(g, with_series)
         res["ok"] = True
+        if c.get("_hourly_before_write"):
+            # a user of the API who looks at the hourly temperatures of the design before writing the results
+            from ghedesigner.enums import TimestepType as _T
+            g._search.ghe.simulate(method=_T.HOURLY)
         if outdir:
             g.prepare_results("verif", "note", "verif", "it")
             g.write_output_files(Path(outdir))
